@@ -7,4 +7,10 @@ require (
 	go.uber.org/multierr v1.11.0
 )
 
+require (
+	golang.org/x/mod v0.17.0 // indirect
+	golang.org/x/sync v0.7.0 // indirect
+	golang.org/x/tools v0.20.0 // indirect
+)
+
 replace go.uber.org/cff => /repo
